@@ -324,3 +324,122 @@ Proof.
     + apply head_is_true in Eh. destruct Eh. inversion H; subst. eapply St_gc_win; eauto.
     + inversion H; subst. eapply St_gc_lose; eauto.
 Qed.
+
+(* ======================================================================================== *)
+(* Invariant 1: life cycle of block tables; every published table is a prefix of the current *)
+(* ======================================================================================== *)
+Definition T (s : st) (k : nat) : option tinfo := nth_error (tables s) k.
+
+Definition pc_ok (s : st) (t : nat) (p : pc) : Prop :=
+  match p with
+  | Idle | GcCas _ _ _ => True
+  | SlowCas bt nt bn e => exists tb tn spec, T s bt = Some tb /\ T s nt = Some tn /\ published tb /\ tst tn = TSpec t /\
+      tblocks tn = tblocks tb ++ spec /\ bn = tsize tb /\ tsup tn = None /\ tfreed tn = None /\ nt <> 0%nat
+  | RetLoad old nt | RetStrong old nt _ _ _ _ _ | RetWeak old nt _ _ _ _ _ =>
+      exists to tn, T s old = Some to /\ tst to = TRetiring t /\ T s nt = Some tn /\ published tn
+  end.
+
+Record Inv1 (s : st) : Prop := {
+  i1_cur : exists ti, T s (cur s) = Some ti /\ tst ti = TCur /\ tsup ti = None /\ tfreed ti = None;
+  i1_uniq : forall k ti, T s k = Some ti -> tst ti = TCur -> k = cur s;
+  i1_prefix : forall k ti, T s k = Some ti -> published ti -> prefix (tblocks ti) (live s);
+  i1_pc : forall t th, nth_error (threads s) t = Some th -> pc_ok s t (tpc th);
+  i1_snap : forall t th k taken, nth_error (threads s) t = Some th -> snap th = Some (k, taken) ->
+      exists ti, T s k = Some ti /\ published ti;
+  i1_list : forall k, In k (hnodes s) -> exists ti, T s k = Some ti /\ tst ti = TListed
+}.
+
+Lemma threads_upd : forall s0 t th' t',
+  nth_error (threads (upd_thread s0 t th')) t' =
+  match nth_error (threads s0) t' with None => None | Some y => Some (if Nat.eqb t t' then th' else y) end.
+Proof. intros. cbn. apply nth_error_set_nth. Qed.
+
+Lemma inv1_init : forall b t0 progs, Inv1 (init b t0 progs).
+Proof.
+  intros. constructor; cbn.
+  - exists empty_table. repeat split; reflexivity.
+  - intros [|k] ti H; [reflexivity|]. destruct k; discriminate.
+  - intros [|k] ti H Hp; [|destruct k; discriminate]. inversion H; subst. apply prefix_refl.
+  - intros t th H. apply nth_error_In in H. apply in_map_iff in H. destruct H as (p & <- & _). exact I.
+  - intros t th k taken H Hs. apply nth_error_In in H. apply in_map_iff in H. destruct H as (p & <- & _). discriminate.
+  - intros k [].
+Qed.
+
+(* what a step of thread t may do to the table store without disturbing the other threads *)
+Definition tables_ext (s s' : st) (t : nat) : Prop :=
+  forall k ti, T s k = Some ti -> exists ti', T s' k = Some ti' /\
+    (published ti -> published ti' /\ tblocks ti' = tblocks ti) /\
+    (forall u, u <> t -> tst ti = TSpec u \/ tst ti = TRetiring u -> ti' = ti).
+
+Lemma pc_ok_ext : forall s s' t t' p, tables_ext s s' t -> t' <> t -> pc_ok s t' p -> pc_ok s' t' p.
+Proof.
+  intros s s' t t' p Hext Hne H. destruct p; cbn in *; auto.
+  - destruct H as (tb & tn & spec & Hb & Hn & Hpb & Hst & Hbl & Hbn & Hsup & Hfr & Hnz).
+    destruct (Hext _ _ Hb) as (tb' & Hb' & Hpub & _). destruct (Hpub Hpb) as [Hpb' Hbl'].
+    destruct (Hext _ _ Hn) as (tn' & Hn' & _ & Hsame). rewrite (Hsame t' Hne (or_introl Hst)) in Hn'.
+    exists tb', tn, spec. repeat split; auto; try congruence. unfold tsize. rewrite Hbl'. assumption.
+  - destruct H as (to & tn & Ho & Hst & Hn & Hp).
+    destruct (Hext _ _ Ho) as (to' & Ho' & _ & Hsame). rewrite (Hsame t' Hne (or_intror Hst)) in Ho'.
+    destruct (Hext _ _ Hn) as (tn' & Hn' & Hpub & _). exists to, tn'. repeat split; auto. apply Hpub; assumption.
+  - destruct H as (to & tn & Ho & Hst & Hn & Hp).
+    destruct (Hext _ _ Ho) as (to' & Ho' & _ & Hsame). rewrite (Hsame t' Hne (or_intror Hst)) in Ho'.
+    destruct (Hext _ _ Hn) as (tn' & Hn' & Hpub & _). exists to, tn'. repeat split; auto. apply Hpub; assumption.
+  - destruct H as (to & tn & Ho & Hst & Hn & Hp).
+    destruct (Hext _ _ Ho) as (to' & Ho' & _ & Hsame). rewrite (Hsame t' Hne (or_intror Hst)) in Ho'.
+    destruct (Hext _ _ Hn) as (tn' & Hn' & Hpub & _). exists to, tn'. repeat split; auto. apply Hpub; assumption.
+Qed.
+
+(* generic preservation: the stepping thread t ends in th', the store evolves by tables_ext *)
+Lemma inv1_frame : forall s s' t th th',
+  Inv1 s -> nth_error (threads s) t = Some th -> threads s' = set_nth t th' (threads s) ->
+  tables_ext s s' t ->
+  (exists ti, T s' (cur s') = Some ti /\ tst ti = TCur /\ tsup ti = None /\ tfreed ti = None) ->
+  (forall k ti, T s' k = Some ti -> tst ti = TCur -> k = cur s') ->
+  prefix (live s) (live s') ->
+  (forall k ti', T s' k = Some ti' -> published ti' ->
+     (exists ti, T s k = Some ti /\ published ti) \/ prefix (tblocks ti') (live s')) ->
+  pc_ok s' t (tpc th') ->
+  (forall k taken, snap th' = Some (k, taken) -> exists ti, T s' k = Some ti /\ published ti) ->
+  (forall k, In k (hnodes s') -> exists ti, T s' k = Some ti /\ tst ti = TListed) ->
+  Inv1 s'.
+Proof.
+  intros s s' t th th' I Hth Hthr Hext Hcur Huniq Hlive Hnew Hpc Hsnap Hlist.
+  constructor; auto.
+  - intros k ti' Hk Hp. destruct (Hnew _ _ Hk Hp) as [(ti & Hk0 & Hp0)|]; [|assumption].
+    destruct (Hext _ _ Hk0) as (ti'' & Hk' & Hpub & _). unfold T in *. rewrite Hk in Hk'. inversion Hk'; subst ti''.
+    destruct (Hpub Hp0) as [_ Hbl]. rewrite Hbl. eapply prefix_trans; [|exact Hlive]. eapply i1_prefix; eauto.
+  - intros t' th0 H0. rewrite Hthr, nth_error_set_nth in H0.
+    destruct (nth_error (threads s) t') as [y|] eqn:Ey; [|discriminate]. inversion H0; subst th0; clear H0.
+    destruct (Nat.eqb_spec t t') as [<-|Hne]; [assumption|].
+    eapply pc_ok_ext; eauto. eapply i1_pc; eauto.
+  - intros t' th0 k taken H0 Hs. rewrite Hthr, nth_error_set_nth in H0.
+    destruct (nth_error (threads s) t') as [y|] eqn:Ey; [|discriminate]. inversion H0; subst th0; clear H0.
+    destruct (Nat.eqb_spec t t') as [<-|Hne]; [eapply Hsnap; eauto|].
+    destruct (i1_snap s I _ _ _ _ Ey Hs) as (ti & Hk & Hp). destruct (Hext _ _ Hk) as (ti' & Hk' & Hpub & _).
+    exists ti'. split; [assumption|]. apply Hpub; assumption.
+Qed.
+
+Lemma tables_ext_refl : forall s s' t, tables s' = tables s -> tables_ext s s' t.
+Proof. intros s s' t E k ti H. exists ti. unfold T in *. rewrite E. repeat split; auto. Qed.
+
+(* steps that leave tables, cur and the retire list alone *)
+Lemma inv1_local : forall s s' t th th',
+  Inv1 s -> nth_error (threads s) t = Some th -> threads s' = set_nth t th' (threads s) ->
+  tables s' = tables s -> cur s' = cur s -> hnodes s' = hnodes s ->
+  pc_ok s t (tpc th') ->
+  (forall k taken, snap th' = Some (k, taken) -> exists ti, T s k = Some ti /\ published ti) ->
+  Inv1 s'.
+Proof.
+  intros s s' t th th' I Hth Hthr Et Ec Eh Hpc Hsnap.
+  assert (ET : forall k, T s' k = T s k) by (intro; unfold T; rewrite Et; reflexivity).
+  assert (EL : live s' = live s) by (unfold live, table; rewrite Et, Ec; reflexivity).
+  eapply inv1_frame; eauto.
+  - apply tables_ext_refl; assumption.
+  - rewrite Ec, ET. apply (i1_cur s I).
+  - intros k ti. rewrite ET, Ec. apply (i1_uniq s I).
+  - rewrite EL. apply prefix_refl.
+  - intros k ti' H Hp. left. exists ti'. rewrite <- ET. auto.
+  - destruct (tpc th'); cbn in *; auto; repeat setoid_rewrite ET; assumption.
+  - intros k taken H. rewrite ET. eauto.
+  - intros k. rewrite Eh, ET. apply (i1_list s I).
+Qed.
